@@ -11,7 +11,7 @@ import gen as G
 VMAX = 50  # symbolic EDB values range over [-VMAX, VMAX] (keeps i64/f64 arithmetic exact for depth<=3 terms)
 
 TIERS = {
-    "quick": {"rows": 2, "rows_flat": 2, "k": 3, "timeout_ms": 10000, "n_seeded": 16, "n_templates": 24},
+    "quick": {"rows": 2, "rows_flat": 2, "k": 3, "timeout_ms": 10000, "n_seeded": 16, "n_templates": 32},
     "thorough": {"rows": 3, "rows_flat": 3, "k": 4, "timeout_ms": 120000, "n_seeded": 120, "n_templates": 10 ** 6},
 }
 
@@ -32,7 +32,7 @@ class Run:
 
     # ---------------------------------------------------------------------------------
     def rows_for(self, program, kind):
-        return self.cfg["rows_flat"] if kind in ("flat", "template", "agg") else self.cfg["rows"]
+        return self.cfg["rows_flat"] if kind in ("flat", "template", "agg", "shared") else self.cfg["rows"]
 
     def compare(self, label, edb_tables, A, B, side, desc):
         """Decide  forall EDB in bounds . side => A == B  (as sets). Returns verdict, concrete EDB."""
@@ -42,17 +42,40 @@ class Run:
             return v, P.extract_edb(m, edb_tables)
         return v, None
 
-    def witness(self, edb_tables, side, rows):
-        """Ask the solver for an EDB within the bounds on which `rows` is non-empty (>= 2 distinct rows if possible)."""
+    def witnesses(self, edb_tables, side, rows):
+        """Solver-chosen EDBs within the bounds on which `rows` (an answer) is non-empty. Two goals:
+        (1) 'stress': every EDB slot present and two rows of some relation agree on all but one column
+            (projections collapse them, joins multiply them) - falls back to all slots present;
+        (2) 'spread': two distinct answer rows - falls back to a non-empty answer."""
         base = E.edb_constraints(edb_tables, VMAX) + list(side)
+        ne = E.nonempty(rows)
+        if ne is False:
+            return []
+        allp = S.AND(*[r.p for rws in edb_tables.values() for r in rws])
+        near = []
+        for rws in edb_tables.values():
+            for i, a in enumerate(rws):
+                for b in rws[:i]:
+                    n = len(a.c)
+                    for skip in range(n):
+                        near.append(S.AND(*[S.EQ(a.c[j], b.c[j]) for j in range(n) if j != skip]))
         two = S.OR(*[S.AND(a.p, b.p, S.NOT(E.tup_eq(a.c, b.c))) for i, a in enumerate(rows) for b in rows[:i]])
-        for goal in (two, E.nonempty(rows)):
-            if goal is False:
-                continue
-            v, m = P.solve(base + [goal], min(5000, self.cfg["timeout_ms"]), self.stats)
-            if v == "sat":
-                return P.extract_edb(m, edb_tables)
-        return None
+        out = []
+        for goals in ([S.AND(allp, S.OR(*near), ne), S.AND(allp, ne)], [two, ne]):
+            for goal in goals:
+                if goal is False:
+                    continue
+                v, m = P.solve(base + [goal], min(5000, self.cfg["timeout_ms"]), self.stats)
+                if v == "sat":
+                    w = P.extract_edb(m, edb_tables)
+                    if w not in out:
+                        out.append(w)
+                    break
+        return out
+
+    def witness(self, edb_tables, side, rows):
+        ws = self.witnesses(edb_tables, side, rows)
+        return ws[0] if ws else None
 
     def record(self, sample):
         if len(self.samples) < 12 or sample.get("verdict") not in ("unsat",):
@@ -91,7 +114,7 @@ class Run:
             self.inconclusive.append(f"{len(st.model_mismatches)} model-validation mismatches (encoder does not predict "
                                      f"the engine; see {p})")
         total = max(1, self.decided + len(self.skipped))
-        if len(self.skipped) * 10 > total:
+        if len(self.skipped) * 2 > total:
             self.inconclusive.append(f"{len(self.skipped)} of {total} cases undecided (solver timeout/unsupported)")
         cov = {
             "programs": self.programs,
@@ -148,8 +171,9 @@ def corpus(run, kinds, with_templates=False):
     if with_templates:
         ts = G.templates()
         if len(ts) > run.cfg["n_templates"]:
-            rnd = random.Random(vc.seed())
-            ts = rnd.sample(ts, run.cfg["n_templates"])
+            # stratified: every step-th template (the families are laid out contiguously), offset by the seed
+            step = -(-len(ts) // run.cfg["n_templates"])
+            ts = ts[vc.seed() % step::step]
         out.extend((t, "template") for t in ts)
     n = run.cfg["n_seeded"]
     tries = 0
@@ -173,6 +197,19 @@ def prepare(run, program, kind, case, arities):
         P.validate_model(rep, w, case, run.cfg["k"], run.stats)
     except E.Unsupported as ex:
         run.stats.note_unsupported(str(ex))
+    if run.prop == "C04":
+        # "executing a query never changes the stored base facts": the engine's own input tuples for the
+        # user relations must be the same before and after the call (magic_* seed relations may be added)
+        for rel in arities:
+            b0 = sorted(map(tuple, rep.get("inputs_before", {}).get(rel, [])))
+            b1 = sorted(map(tuple, rep.get("inputs_after", {}).get(rel, [])))
+            if b0 != b1:
+                run.violation("base-facts-changed-" + kind, f"executing {case.text!r} changed stored relation {rel}",
+                              {"property": run.prop, "engine": "P", "kind": "pairwise", "program": case.text,
+                               "a": case.describe(), "b": case.describe(), "a_text": case.text, "b_text": case.text,
+                               "a_cfg": case.cfg, "b_cfg": case.cfg, "a_workers": 1, "b_workers": 1,
+                               "a_history": case.history, "b_history": case.history, "edb": w,
+                               "note": f"{rel}: before {b0} after {b1}"})
     return {"rep": rep, "witness": w}
 
 
@@ -218,8 +255,10 @@ def check_vs_reference(run, program, kind, configs, key_fn):
         side = list(plan.conv) + list(ref_conv)
         # solver-directed witness: an EDB on which the reference answer is non-empty (two rows if possible);
         # the real engine must agree with the independent concrete evaluator on it
-        wit = run.witness(edb, side, ref)
-        if wit is not None:
+        wits = run.witnesses(edb, side, ref)
+        wit = wits[0] if wits else None
+        differs = False
+        for wit in wits:
             got_w, err_w = run.engine_answer(case, wit)
             try:
                 want_w = R.model_c(program, wit).get(program["query"], set())
@@ -237,7 +276,8 @@ def check_vs_reference(run, program, kind, configs, key_fn):
                 run.nontrivial += 1
                 run.record({"program": text, "configs": g["members"][:6], "verdict": "witness-differs", "edb": wit,
                             "engine": sorted(got_w) if got_w is not None else err_w, "expected": sorted(want_w)})
-                continue
+                differs = True
+                break
             if want_w is not None:
                 try:
                     inputs_w = dict(wit)
@@ -249,11 +289,13 @@ def check_vs_reference(run, program, kind, configs, key_fn):
                                                            "engine": sorted(got_w)})
                 except E.Unsupported as ex:
                     run.stats.note_unsupported(str(ex))
+        if differs:
+            continue
         t0 = time.time()
         v, cex = run.compare(text, edb, plan.answer, ref, side, case.describe())
         ms = int((time.time() - t0) * 1000)
         sample = {"program": text, "configs": g["members"][:6], "rows": n, "k": k, "verdict": v, "solver_ms": ms,
-                  "strategies": plan.strategies, "witness_checked": wit is not None}
+                  "strategies": plan.strategies, "witnesses_checked": len(wits)}
         if v == "unknown":
             run.skipped.append({"program": text, "config": P.cfg_str(cfg), "why": "solver timeout"})
             run.record(sample)
@@ -304,7 +346,7 @@ def key_c01(program, kind, rep, plan):
 
 
 def run_c01(run):
-    for program, kind in corpus(run, ["flat", "flat", "rec", "rec", "agg", "mutual", "flat", "rec"]):
+    for program, kind in corpus(run, ["flat", "shared", "rec", "rec", "agg", "mutual", "flat", "rec"], with_templates=True):
         check_vs_reference(run, program, kind, [P.DEFAULT_CFG], key_c01)
     return run.finish("translation_validation",
                       {"explanation": "plans executed by IQLEngine::execute_tuples under the default configuration vs the "
@@ -386,11 +428,12 @@ def check_pairwise(run, program, kind, cases, key, what):
     base = groups[order[0]]
     pb = plans[order[0]]
     # solver-directed witness: all cases must agree with the base case on the real engine
-    wit = run.witness(edb, list(pb.conv), pb.answer)
-    if wit is not None:
+    for wit in run.witnesses(edb, list(pb.conv), pb.answer):
         a0, e0 = run.engine_answer(base["case"], wit)
         for sk in order[1:]:
             g = groups[sk]
+            if sk not in plans:
+                continue
             a1, e1 = run.engine_answer(g["case"], wit)
             if a1 != a0:
                 kk = key(program, kind, base, g) if callable(key) else key
@@ -456,7 +499,7 @@ def run_c02(run):
         a, b = base["case"].cfg, g["case"].cfg
         diff = [P.CFG_NAMES[i] for i in range(5) if a[i] != b[i]]
         return "config-" + kind + "-" + "+".join(diff)
-    for program, kind in corpus(run, ["flat", "flat", "rec", "agg", "flat", "rec"], with_templates=True):
+    for program, kind in corpus(run, ["flat", "shared", "rec", "agg", "flat", "rec", "shared"], with_templates=True):
         text = R.render(program)
         if kind == "template" or run.tier == "thorough":
             cfgs = P.ALL_CONFIGS
@@ -499,7 +542,7 @@ def run_c03(run):
 
 def run_c04(run):
     rnd = random.Random(vc.seed() + 5)
-    progs = corpus(run, ["flat", "rec", "flat", "agg", "rec", "mutual"])
+    progs = corpus(run, ["flat", "rec", "shared", "agg", "rec", "mutual"])
     prev_text = None
     for program, kind in progs:
         text = R.render(program)
@@ -530,6 +573,9 @@ def run_c04(run):
                     if t[0] == "const":
                         t[1] = t[1] + 1
                         changed = True
+            elif l[0] == "cmp" and l[2] == "=" and l[3][0] == "const":
+                l[3][1] = l[3][1] + 1
+                changed = True
         if changed:
             alt = _tuplify(alt)
             cases.append(P.Case(program, text, P.DEFAULT_CFG, history=[R.render(alt)], label="history=other-constant"))
@@ -693,6 +739,96 @@ def check_rewrite(run, ir, label, passes, derived):
                                                "after": after_ir})
 
 
+def eval_views(views, env):
+    """Evaluate shared views in dependency order into a copy of env."""
+    env2 = dict(env)
+    pending = dict(views)
+    guard = 0
+    while pending and guard < 20:
+        guard += 1
+        for name in sorted(pending):
+            need = scans_of(pending[name], {})
+            if all((r in env2) or (r not in views) for r in need):
+                env2[name] = E.distinct(E.PlanEval(env2).ev(pending[name]))
+                del pending[name]
+                break
+    return env2
+
+
+def check_share_all(run, irs, heads, label):
+    """Cross-rule subplan sharing: all heads of a program are handed to SubplanSharer together."""
+    rep = run.bridge.job({"job": "share_all", "irs": irs, "derived": heads})
+    if not rep.get("ok"):
+        if rep.get("panic") or rep.get("crash"):
+            run.violation("pass-panic-share_subplans", f"share_subplans panics ({label})",
+                          {"property": run.prop, "engine": "P", "kind": "rewrite-panic", "pass": "share_subplans", "ir": irs[0]})
+        return
+    views = rep.get("views") or {}
+    if not views:
+        return
+    env_ar = {}
+    for ir in irs:
+        scans_of(ir, env_ar)
+    n = run.cfg["rows"]
+    S.reset()
+    tables = {rel: E.sym_table(rel, ar, n) for rel, ar in env_ar.items()}
+    try:
+        env2 = eval_views(views, tables)
+    except E.Unsupported as ex:
+        run.stats.note_unsupported(str(ex))
+        return
+    for head, ir, new_ir in zip(heads, irs, rep["irs"]):
+        if json.dumps(ir, sort_keys=True) == json.dumps(new_ir, sort_keys=True):
+            continue
+        try:
+            before = E.distinct(E.PlanEval(tables).ev(ir))
+            after = E.distinct(E.PlanEval(env2).ev(new_ir))
+        except E.Unsupported as ex:
+            run.stats.note_unsupported(str(ex))
+            continue
+        v, cex = run.compare(label, tables, after, before, [], label)
+        if v == "unknown":
+            run.skipped.append({"plan_from": label, "pass": "share_subplans(all heads)", "why": "solver timeout"})
+            continue
+        run.decided += 1
+        sample = {"plan_from": label, "head": head, "pass": "share_subplans(all heads)", "rows": n, "verdict": v,
+                  "views": sorted(views)}
+        if v == "unsat":
+            run.nontrivial += 1
+            run.record(sample)
+            continue
+        r1 = run.bridge.job({"job": "exec_ir", "ir": ir, "edb": cex})
+        edb2 = dict(cex)
+        okv = True
+        done = set()
+        for _ in range(len(views) + 1):
+            for name in sorted(views):
+                if name in done:
+                    continue
+                need = scans_of(views[name], {})
+                if all((r in edb2) or (r not in views) for r in need):
+                    rv = run.bridge.job({"job": "exec_ir", "ir": views[name], "edb": edb2})
+                    if not rv.get("ok"):
+                        okv = False
+                    edb2[name] = rv.get("answer", [])
+                    done.add(name)
+        r2 = run.bridge.job({"job": "exec_ir", "ir": new_ir, "edb": edb2}) if okv else {"ok": False}
+        run.stats.replayed += 1
+        a1 = P.answer_set(r1["answer"]) if r1.get("ok") else None
+        a2 = P.answer_set(r2["answer"]) if r2.get("ok") else None
+        sample.update({"edb": cex, "before_answer": sorted(a1) if a1 is not None else None,
+                       "after_answer": sorted(a2) if a2 is not None else None})
+        run.record(sample)
+        if a1 != a2:
+            run.nontrivial += 1
+            run.violation("pass-share_subplans-cross-rule", f"cross-rule subplan sharing changes head {head} ({label})",
+                          {"property": run.prop, "engine": "P", "kind": "share_all", "irs": irs, "heads": heads,
+                           "head": head, "edb": cex, "before_answer": sorted(a1) if a1 is not None else None,
+                           "after_answer": sorted(a2) if a2 is not None else None})
+        else:
+            run.stats.model_mismatches.append({"pass": "share_all", "edb": cex, "note": "sat not reproduced", "head": head})
+
+
 def top_shape(ir):
     s = ir["op"]
     for k in ("input", "left"):
@@ -702,7 +838,7 @@ def top_shape(ir):
 
 
 def run_c05(run):
-    progs = corpus(run, ["flat", "flat", "agg", "rec", "flat"], with_templates=True)
+    progs = corpus(run, ["flat", "shared", "agg", "rec", "flat", "shared"], with_templates=True)
     seen = set()
     for program, kind in progs:
         text = R.render(program)
@@ -711,6 +847,12 @@ def run_c05(run):
             run.stats.engine_errors[rep.get("error", "?")[:60]] = 1
             continue
         run.programs += 1
+        if len(rep["irs"]) > 1:
+            check_share_all(run, rep["irs"], rep["heads"], f"{text!r}")
+            # and as the pipeline does it: after join planning
+            pj = [run.bridge.job({"job": "rewrite", "ir": ir, "pass": "plan_joins"}) for ir in rep["irs"]]
+            if all(x.get("ok") for x in pj):
+                check_share_all(run, [x["ir"] for x in pj], rep["heads"], f"{text!r} after plan_joins")
         for head, ir in zip(rep["heads"], rep["irs"]):
             h = json.dumps(ir, sort_keys=True)
             if h in seen:
@@ -724,6 +866,23 @@ def run_c05(run):
             r3 = run.bridge.job({"job": "rewrite", "ir": ir, "pass": "specialize"})
             if r3.get("ok") and json.dumps(r3["ir"], sort_keys=True) != h:
                 check_rewrite(run, r3["ir"], f"{text!r} head {head} after specialize", ["optimize"], rep["heads"])
+    # synthetic well-formed plan trees for the name-agnostic passes (optimizer fixpoint and its rules)
+    pg = G.PlanGen(vc.seed() * 31 + 7)
+    n_syn = 30 if run.tier == "quick" else 400
+    syn_passes = [p for p in PASSES if p not in ("plan_joins", "share_subplans")]
+    made = 0
+    for _ in range(n_syn * 3):
+        if made >= n_syn:
+            break
+        ir, w = pg.tree(run.cfg.get("plan_depth", 3))
+        if ir["op"] == "Scan":
+            continue
+        h = json.dumps(ir, sort_keys=True)
+        if h in seen:
+            continue
+        seen.add(h)
+        made += 1
+        check_rewrite(run, ir, f"synthetic plan #{made}", syn_passes, [])
     # leaf index kernel of the join fusion, decided by Kani over all indices (engine K)
     import kcheck
     from kspecs import SPECS
